@@ -167,6 +167,15 @@ class Engine:
 
     # -- creating symbolic values from type strings ---------------------------------------------
     def make_symbolic(self, path, name, typ):
+        if isinstance(typ, dict) and typ.get("cls") == "argparse.Namespace":
+            # attributes live in a dict that vars(ns) exposes (aliasing between ns.x and vars(ns)['x'] is real)
+            d = HDict()
+            dref = path.alloc(d)
+            for f, ft in typ.get("fields", {}).items():
+                d.over[f] = self.make_symbolic(path, f"{name}_{f}", ft)
+            obj = HObj("argparse.Namespace")
+            obj.ns_dict = dref
+            return path.alloc(obj)
         if isinstance(typ, dict):
             cls = typ.get("cls")
             ci = self.repo.find_class(cls) if cls else None
